@@ -77,7 +77,7 @@ struct C12 {
   }
 };
 
-void one_case(Ctx &c) {
+void case_impl(Ctx &c, bool ext) {
   C12 x(c); Sim &s = x.s; World &w = x.w;
   s.nodeid = (uint8_t)(1 + c.t.below(127));
   w.mandatory();
@@ -111,11 +111,11 @@ void one_case(Ctx &c) {
   SdoClient cl(s, w.req[0], w.rsp[0]);
   if (c.logging) for (int p = 0; p < ntp; p++) { MP &m = x.mp[p]; std::string d; for (size_t i = 0; i < m.objs.size(); i++) d += "obj" + std::to_string(m.objs[i] + 1) + "/" + std::to_string(m.bytes[i]) + " "; VLOG(c, "TPDO %d: id %08X type %u inhibit %u x100us event %u ms map: %s", p, *m.cfg.id, *m.cfg.type, *m.cfg.inhibit, *m.cfg.event, d.c_str()); }
   auto trig_obj_changed = [&](int o) { if (x.mode == 3) for (int p = 0; p < 4; p++) if (x.mp[p].present) for (int k : x.mp[p].objs) if (k == o) { x.tx(p, 0); break; } };
-  int steps = 0;
+  int steps = 0, retyped = 0;
   while (!c.t.exhausted() && steps < 200) {
     steps++; c.ops++;
-    static const uint16_t W[12] = {60, 10, 14, 14, 6, 12, 8, 8, 4, 4, 4, 4};
-    uint32_t op = c.t.weighted(W);
+    static const uint16_t W[12] = {60, 10, 14, 14, 6, 12, 8, 8, 4, 4, 4, 4}, WX[13] = {60, 10, 14, 14, 6, 12, 8, 8, 4, 4, 4, 4, 6};
+    uint32_t op = ext ? c.t.weighted(WX) : c.t.weighted(W);   // mode "random" keeps the alphabet the saved witnesses were recorded with
     s.clear_tx(); s.clear_ev(); for (int p = 0; p < 4; p++) for (auto &a : x.mp[p].alt) a.out.clear();
     if (op == 0) { s.step_tick(); x.tick(); VLOG(c, "tick -> %ld", x.T); x.compare("tick"); }
     else if (op == 1) { uint32_t n = 2 + c.t.below(12); for (uint32_t i = 0; i < n; i++) { s.clear_tx(); s.step_tick(); x.tick(); x.compare("tick"); } VLOG(c, "%u ticks -> %ld", n, x.T); }
@@ -173,22 +173,40 @@ void one_case(Ctx &c) {
       VLOG(c, "18%02Xh:1 := %08X", p, nv);
       if (x.mode == 3) x.activate(p);
       x.compare("COB-ID write");
+    } else if (op == 12) { // the transmission type is rewritten (legal only while the COB-ID is invalid): invalidate, write type (and inhibit time), re-validate
+      int p = (int)c.t.below(ntp); if (x.mode == 4) continue; MP &m = x.mp[p];
+      std::vector<Frame> seen;
+      auto wr = [&](uint8_t sub, uint32_t v, int n, const char *what) { uint32_t code = cl.write((uint16_t)(0x1800 + p), sub, v, n); for (auto &f : cl.foreign) seen.push_back(f); cl.foreign.clear();
+        CHECK(c, code == 0, "parameter-write", "%s of TPDO %d (18%02Xh:%u := %X) refused with %08X", what, p, p, sub, v, code); };
+      if (!(*m.cfg.id & 0x80000000u)) { wr(1, *m.cfg.id | 0x80000000u, 4, "invalidating the COB-ID"); if (x.mode == 3) x.activate(p); }
+      uint32_t r = c.t.below(3); uint8_t nt = r == 0 ? 254 : r == 1 ? 255 : (uint8_t)(c.t.chance(200) ? 1 + c.t.below(4) : 1 + c.t.below(240));
+      uint16_t inh = (nt >= 254 && c.t.coin()) ? (uint16_t)(10 * (1 + c.t.below(8))) : 0;
+      wr(2, nt, 1, "writing the transmission type while invalid"); wr(3, inh, 2, "writing the inhibit time while invalid");
+      VLOG(c, "TPDO %d: type := %u, inhibit := %u x100us while invalid", p, nt, inh);
+      if (c.t.chance(200)) { wr(1, *m.cfg.id & ~0x80000000u, 4, "re-validating the COB-ID"); if (x.mode == 3) x.activate(p); VLOG(c, "TPDO %d re-validated", p); }
+      s.tx = seen; retyped++;
+      x.compare("transmission type rewritten");
     } else {              // change non-asynchronous values silently
       for (int o : {1, 3, 4}) { uint32_t v = c.t.u32(); if (o == 4) v &= 0xFFFFFF; s.api_begin(); if (x.ob[o]->width == 1) CODictWrByte(&s.node->Dict, CO_DEV(0x2100, o + 1), (uint8_t)v); else CODictWrLong(&s.node->Dict, CO_DEV(0x2100, o + 1), v); s.api_end("CODictWr"); }
       x.compare("non-asynchronous value changes");
     }
   }
   if (x.deferred || x.by_event || x.by_sync) c.nontrivial = true;
+  if (retyped) c.cls("transmission-type-rewritten");
   if (x.deferred) c.cls("deferred-by-inhibit"); if (x.by_event) c.cls("sent-by-event-timer"); if (x.by_sync) c.cls("sent-by-sync-count"); if (x.ties) c.cls("inhibit-event-tie-with-pending-trigger");
 }
+
+void one_case(Ctx &c) { case_impl(c, false); }
+void ext_case(Ctx &c) { case_impl(c, true); }
 
 Registrar reg(Prop{
     "C12",
     "Cases: node id 1..127, 1..4 TPDOs with mappings of 1..5 distinct objects of 1/2/3(24 bit of a 32-bit object)/4 bytes totalling <= 8 bytes, type in {1..240, 254, 255}, inhibit 0..8 ms (non-zero only for 254/255), event time 0..12 ms with inhibit == event ties produced on purpose, valid or invalid COB-ID; "
-    "histories of up to 200 ops: ticks, explicit COTPdoTrigPdo/COTPdoTrigObj, value changes of asynchronous and other objects through API/SDO/RPDO, SYNCs, NMT changes, SDO writes to the event time and to the COB-ID valid bit while running. "
+    "histories of up to 200 ops: ticks, explicit COTPdoTrigPdo/COTPdoTrigObj, value changes of asynchronous and other objects through API/SDO/RPDO, SYNCs, NMT changes, SDO writes to the event time and to the COB-ID valid bit while running; mode random-retype adds: invalidate the COB-ID, rewrite transmission type and inhibit time, re-validate (in PRE-OPERATIONAL or OPERATIONAL). "
     "Oracle: reference schedule: after every op and every single tick the multiset of (identifier, DLC, data) TPDO frames equals the model's (data = little-endian values of the mapped objects at emission; immediate emission on trigger unless inhibited; exactly one deferred emission at inhibit end; event timer restarted by every emission; type n => every n-th SYNC; nothing outside OPERATIONAL or with an invalid COB-ID; ties resolved inhibit first). "
     "Non-trivial: >= 1 emission deferred by the inhibit time or produced by the event timer or by the SYNC count. Distinct = distinct decoded choice sequence.",
-    {Mode{"random", one_case, false, 2000000, 30000000, 0, 0, 300, 500}},
+    {Mode{"random", one_case, false, 600000, 8000000, 0, 0, 300, 500},
+     Mode{"random-retype", ext_case, false, 1400000, 22000000, 0, 0, 300, 500}},
     {"timer frequency 1000 Hz: inhibit times are multiples of 1 ms (10 x 100 us), event times whole ms",
      "the first event-timer expiry after activation of TPDO number n may fall on any tick in [E, E+n] (the stack staggers start-up by the PDO number; the statement does not fix it): alternatives are tracked per TPDO and dropped when contradicted",
      "a write to the event time while the inhibit time runs: both 'timing restarted, waiting transmission released at once' (what the stack and ut-pdo-event do) and 'inhibit window continues, event timer re-armed' are admitted (alternatives tracked per TPDO)",
